@@ -39,6 +39,7 @@ func runC35(c *Ctx) {
 	defer func() { r.Extra["rules_wall_s"] = time.Since(t0).Seconds() }()
 	r.Rule("C35.R1", "keyframe gate: every write to the output happens in WriteRTP and is reached only with hasKeyFrame known true; hasKeyFrame is assigned only from isKeyFrame (or true), only at a point where it is known false, never taken by address and not preset in a literal", 4)
 	r.Rule("C35.R2", "keyframe predicates, evaluated for every NAL type / header byte value: H.265 isKeyFrameNalu = {VPS, SPS, PPS, IDR_W_RADL, IDR_N_LP}; H.265 isKeyFrame on single NAL units (type of byte 0), fragmentation units (FuType = low 6 bits of byte 2) and aggregation packets (any aggregated unit); H.264 isKeyFrame on single NAL units, STAP-A (first aggregated unit) and FU-A start fragments against {SPS, IDR}", 353)
+	r.Rule("C35.R4", "once the gate is open every packet reaches the depacketizer: in H264Writer.WriteRTP / H265Writer.WriteRTP a path to a return bypasses cachedPacket.Unmarshal only through a pure drop branch that establishes len(packet.Payload) == 0 or a closed keyframe gate", 2)
 	r.Rule("C35.R3", "the bytes written are the first result of the depacketizer's Unmarshal applied to the packet's payload, unmodified", 2)
 	r.NotCovered = append(r.NotCovered, "the depacketizers themselves (github.com/pion/rtp/codecs)", "byte-exact round trip through h264reader/h265reader", "packets shorter than the bytes the predicate inspects (listed, not judged)")
 	r.Trusted = append(r.Trusted, "RFC 6184 §5.3/§5.7/§5.8 and RFC 7798 §4.4 payload structures as transcribed in props/c35.go", "core/eval model of bytes.NewReader and encoding/binary.Read")
@@ -48,6 +49,7 @@ func runC35(c *Ctx) {
 	}
 	c35H265Tables(c, l)
 	c35H264Tables(c, l)
+	c35R4(c) // c35b.go
 }
 
 // ---------- R1 / R3 ----------
